@@ -258,7 +258,9 @@ class GPMultiFidelitySearcher(GPFIFOSearcher):
 
     def cleanup_pending(self, trial_id: str):
         def filter_pred(x: PendingEvaluation) -> bool:
-            return x.trial_id == trial_id
+            # ``filter_pending_evaluations`` keeps the entries for which the
+            # predicate is true: all but those of ``trial_id``
+            return x.trial_id != trial_id
 
         self.state_transformer.filter_pending_evaluations(filter_pred)
 
